@@ -70,3 +70,27 @@ Print Assumptions C05_timeout_is_timeout.
 Print Assumptions C05_implicit_acquire_is_privilege.
 Print Assumptions C05_send_command_errors.
 Print Assumptions C05_timeout_in_every_run.
+
+(* ---- NETCONF RPCs (NcExtraLemmas over the NcSession model of sendRPC's wait) ---- *)
+From Scrapli Require Import Netconf NcSession NcSessionLemmas NcSegLemmas.
+From Scrapli Require NcExtraLemmas.
+
+(* the deadline of an RPC yields the timeout error -- even when the reply has been filed meanwhile
+   (the timer case of the select wins), never a success with something else -- ... *)
+Theorem C05_rpc_timeout : forall s o seg p, op_payload o = BOk p -> n_panic s = false ->
+  existsb NcExtraLemmas.is_deadline seg = true -> existsb NcExtraLemmas.is_err seg = false ->
+  snd (do_rpc s o seg) = RTimeout (Z.of_N (n_next_id s)).
+Proof. exact NcExtraLemmas.rpc_timeout. Qed.
+
+(* ... the message-id advances all the same, so the next request is sent under a fresh id and a
+   late reply to the timed-out one cannot be taken for its answer; the late reply stays filed *)
+Theorem C05_rpc_next_request_fresh_id : forall s o1 seg1 o2 seg2 p1 p2,
+  op_payload o1 = BOk p1 -> op_payload o2 = BOk p2 -> n_panic s = false ->
+  existsb NcExtraLemmas.is_deadline seg1 = true \/ existsb NcExtraLemmas.is_err seg1 = true ->
+  let s1 := fst (do_rpc s o1 seg1) in
+  out_id (snd (do_rpc s o1 seg1)) = Some (Z.of_N (n_next_id s)) /\
+  n_next_id s1 = n_next_id s + 1 /\ n_next_id (fst (do_rpc s1 o2 seg2)) = n_next_id s + 2.
+Proof. exact NcExtraLemmas.next_request_fresh_id. Qed.
+
+Print Assumptions C05_rpc_timeout.
+Print Assumptions C05_rpc_next_request_fresh_id.
